@@ -101,4 +101,22 @@ def keptRecords (o : IdxOpts) : Nat → List Block → List Record
   | off, b :: bs =>
     (if o.storeIdentity || !b.cid.isIdentity then [⟨b.cid, off⟩] else []) ++ keptRecords o (off + sectionSize b) bs
 
+/-- `ReadOrGenerateIndex`: a CARv1 is indexed; a CARv2 hands back its embedded index when the header
+    claims one (whatever codec or identity policy the caller asks for), else its data window is indexed. -/
+def readOrGenerateIndex (o : IdxOpts) (codec : Nat) (src : Bytes) : Except Err Index :=
+  match readHeader o.maxHeader src with
+  | .error e => .error e
+  | .ok (h, _) =>
+    if h.version = 1 then generateIndex .seekable o codec src
+    else if h.version = 2 then
+      match readV2Header ((src.drop 11).take 40) with
+      | .error e => .error e
+      | .ok (v2h, _) =>
+        if v2h.hasIndex then
+          match Index.read (src.drop v2h.indexOffset) with
+          | .ok (ix, _) => .ok ix
+          | .error _ => .error .other
+        else generateIndex .seekable o codec src
+    else .error .badVersion
+
 end Car
